@@ -114,8 +114,10 @@ Definition q_text (d : list (list bq)) : list N :=
   match d with [] => [] | c :: cs => and_text c ++ flat_map (fun x => [124; 124] ++ and_text x) cs end.
 Definition fq_text (d : list (list bq)) : list N := [91; 63; 40] ++ q_text d ++ [41; 93].
 Inductive fstep := FS (x : rstep) | FE (isteps : list rstep) | FC (isteps : list rstep) (o : cmpop) (lit : list N) | FN (isteps : list rstep)
-                 | FQ (d : list (list bq)).
-Definition render_fstep (x : fstep) : list N :=
-  match x with FS y => render_rstep y | FE i => filt_text i | FC i o lit => cmp_text i o lit | FN i => neg_text i | FQ d => fq_text d end.
+                 | FQ (d : list (list bq))
+                 | FR (x : fstep).          (* `..` before a filter: the filter applied to every container below, in pre-order *)
+Fixpoint render_fstep (x : fstep) : list N :=
+  match x with FS y => render_rstep y | FE i => filt_text i | FC i o lit => cmp_text i o lit | FN i => neg_text i | FQ d => fq_text d
+             | FR y => 46 :: 46 :: render_fstep y end.
 Definition render_fsteps (l : list fstep) : list N := flat_map render_fstep l.
 Definition fchain_path (l : list fstep) : list N := 36 :: render_fsteps l.
